@@ -120,6 +120,8 @@ class Prop(bfs.BfsProp):
         ren = {}
         if op is not None and op['op'] == 'renameDimension':
             ren = {op['old']: op['new']}
+        if op is not None and op['op'] == 'renameDimensions2':
+            ren = dict(zip(op['old'], op['new']))
         if old is not None:
             for k, d in old.dimensions.items():
                 nk = ren.get(k, k)
